@@ -18,15 +18,48 @@ def strip_serials(x):
 
 
 def tweak(r, g, cfg):
-    # make tags and decorators dense; spread the configuration over files later (merge order of decorators)
-    pass
+    """dense `!tagged` requests: a later service asks for a tag carried only by earlier services (arguments, calls and fields alike)"""
+    names = list(cfg["services"])
+    for i, n in enumerate(names):
+        sv = cfg["services"][n]
+        if "constructor" not in sv or r.random() > 0.6:
+            continue
+        mine = {spec.tag_name(t) for t in sv.get("tags") or []}
+        ok = [t for t in g.tags if t not in mine and g.carriers[t] and max(g.carriers[t]) < i]
+        if not ok:
+            continue
+        where = r.choice(["arguments", "arguments", "calls", "fields"])
+        ref = "!tagged " + r.choice(ok)
+        if where == "arguments":
+            sv["arguments"] = list(sv.get("arguments") or []) + [ref]
+        elif where == "calls":
+            sv["calls"] = list(sv.get("calls") or []) + [["SetX", [ref]]]
+        else:
+            sv.setdefault("fields", {})["Zeta"] = ref
+
+
+def lit_desc(a):
+    """probe description of a literal decorator argument (None: not a literal this oracle decides)"""
+    if isinstance(a, bool):
+        return {"k": "bool", "v": a}
+    if isinstance(a, int) and -2 ** 63 <= a < 2 ** 63:
+        return {"k": "num", "t": "int", "v": str(a)}
+    if a is None:
+        return {"k": "nil"}
+    if isinstance(a, str) and a and a[0] not in "@!$" and "%" not in a:
+        try:
+            a.encode("utf-8")
+            return {"k": "str", "v": a}
+        except UnicodeEncodeError:
+            return None
+    return None
 
 
 def run(tier, seed, replay):
     out, tooldir, env = common.setup("C04", tier, seed)
     common.proof_part(out, env, "C04")
     n = 40 if tier == "quick" else 600
-    specs, hists, gens = rtcommon.gen_cases(seed, "c04", n, weights={"tags": 0.9, "decorators": 0.95, "todo": 0.0, "failing": 0.0, "calls": 0.5}, hist_len=0)
+    specs, hists, gens = rtcommon.gen_cases(seed, "c04", n, weights={"tags": 0.9, "decorators": 0.95, "todo": 0.0, "failing": 0.0, "calls": 0.5, "min_tags": 1}, hist_len=0, tweak=tweak)
     import random
     for k, (sp, g) in enumerate(zip(specs, gens)):
         cfg = sp["cfg"]
@@ -44,6 +77,16 @@ def run(tier, seed, replay):
                 sp["patterns"] = ["cfg/*/d.yaml"]
             else:
                 sp["files"] = [{"path": "cfg/f%d.yaml" % i, "content": cfggen.to_yaml(p)} for i, p in enumerate(parts)]
+    # directed: carriers declared out of name order with equal priorities (ties are broken by name, not by declaration order);
+    # one decorator function declared several times with different arguments
+    tie = {"services": {n_: {"constructor": "NewA", "arguments": [n_], "tags": [{"name": "tie", "priority": p_}]} for n_, p_ in [("zeta", 1), ("alpha", 1), ("mid", 1), ("beta", 5), ("Alpha", 1), ("a10", 1), ("a9", 1)]},
+           "decorators": [{"tag": "tie", "decorator": "Decorate", "arguments": ["first", 1]}, {"tag": "tie", "decorator": "Decorate", "arguments": ["second", 2]}, {"tag": "tie", "decorator": "Wrap", "arguments": []},
+                          {"tag": "tie", "decorator": "Decorate", "arguments": ["third"]}]}
+    sp = common.mk_spec(len(specs), [tie], keep_out=True)
+    sp["cfg"] = tie
+    sp["what"] = ["tie-break-and-repeated-decorator"]
+    specs.append(sp)
+    hists.append([{"op": "tagged", "name": "tie"}] + [{"op": "get", "name": n_} for n_ in tie["services"]])
     # directed: decorators of two tags interleaved in declaration order, on services carrying one, the other or both tags
     import itertools as _it
     for order in (["alpha", "beta", "alpha"], ["beta", "alpha", "beta", "alpha"], ["zeta", "alpha", "zeta"], ["alpha", "alpha", "beta", "alpha"], ["b", "a", "c", "a", "b"]):
@@ -107,11 +150,16 @@ def run(tier, seed, replay):
                 cur = obs[k]["rt_raw"][hists[k].index(o)]
                 peeled = []
                 while cur.get("k") == "obj" and cur["origin"].rsplit(".", 1)[-1] in ("Decorate", "Wrap") and len(cur["args"]) >= 3 and cur["args"][0].get("k") == "str":
-                    peeled.append((cur["origin"].rsplit(".", 1)[-1], cur["args"][0].get("v"), cur["args"][1].get("v"), len(cur["args"]) - 3))
+                    peeled.append((cur["origin"].rsplit(".", 1)[-1], cur["args"][0].get("v"), cur["args"][1].get("v"), len(cur["args"]) - 3,
+                                   tuple(json.dumps(strip_serials(x), sort_keys=True) for x in cur["args"][3:])))
                     cur = cur["args"][2]
                 sv = cfg["services"].get(o["name"]) or {}
                 mytags = [spec.tag_name(t) for t in sv.get("tags") or []]
-                wantd = [(dc["decorator"].rsplit(".", 1)[-1], dc["tag"], o["name"], len(dc.get("arguments") or [])) for dc in cfg.get("decorators") or [] if dc["tag"] in mytags]     # ("*" is accepted by the grammar as a decorator tag but no service can carry it: never applied)
+                wantd = [(dc["decorator"].rsplit(".", 1)[-1], dc["tag"], o["name"], len(dc.get("arguments") or []),
+                          tuple(None if lit_desc(a) is None else json.dumps(lit_desc(a), sort_keys=True) for a in dc.get("arguments") or [])) for dc in cfg.get("decorators") or [] if dc["tag"] in mytags]
+                # (argument values are compared where the declared argument is a literal; the other forms are the runtime model's)
+                peeled = [p_[:4] + (tuple(g_ if w_ is not None else None for g_, w_ in zip(p_[4], w4)) if len(p_[4]) == len(w4) else p_[4],)
+                          for p_, w4 in zip(peeled[::-1], [w_[4] for w_ in wantd] + [()] * len(peeled))][::-1] if len(peeled) == len(wantd) else peeled     # ("*" is accepted by the grammar as a decorator tag but no service can carry it: never applied)
                 dist["decorator_chains_checked"] = dist.get("decorator_chains_checked", 0) + 1
                 if len(wantd) >= 2:
                     dist["decorator_chains_2plus"] = dist.get("decorator_chains_2plus", 0) + 1
